@@ -252,6 +252,24 @@ CLAIMED = {
        "KroneckerProductAddedDiagLinearOperator._root_inv_decomposition (wrong multitask covariances with fast_pred_var above max_cholesky_size) and "
        "targets that carry a batch dimension the inputs do not (prediction raises).",
   technique="contract-based deductive verification: AST-extracted real functions, elementwise tensor domain with binder-free sums, linear solves as callee contracts (stubs), z3"),
+ "C04": dict(
+  category="other",
+  text="Proof tier (counted): ExactGP.get_fantasy_model is executed symbolically (single-output model, symbolic n, m, d, fantasy batch F; shared "
+       "inputs with per-fantasy targets or plain inputs; with / without the noise keyword; deepcopy modelled as a structural clone so aliasing would "
+       "show) and z3 discharges the assembly -- forward is evaluated once on [X; X_f], the new strategy is prediction_strategy."
+       "get_fantasy_strategy(X_f, y_f, [X; X_f], [y; y_f], that prior[, noise]), the new likelihood is likelihood.get_fantasy_likelihood([noise]), "
+       "the fantasy model's train data are [X; X_f] (expanded over the fantasy batch) and [y; y_f] -- and the FRAME: afterwards the source model "
+       "holds the same train_inputs, train_targets, likelihood and prediction_strategy objects, and the result is a different object. Bounded "
+       "tier (not counted): fantasy predictions (mean, full covariance) and the carried caches (mean_cache, covar_cache, lik_train_train_covar "
+       "and its roots; KISS-GP interpolation caches) against dense from-scratch conditioning on the concatenated data, bitwise 'source untouched' "
+       "checks, for Gaussian / FixedNoise / multitask / derivative / KISS-GP / model-list families, 1-3 fantasy steps incl. batch-expanding ones, "
+       "fast_pred_var x detach_test_caches.",
+  design_ref="DESIGN.md section 5, C04",
+  note="The incremental update algebra of get_fantasy_strategy (Schur-complement update of the solve and of the root decompositions) is a callee "
+       "contract in the proof tier and compared numerically with from-scratch conditioning in the bounded tier only. Known findings: multi-output "
+       "fantasies beyond one point / un-batched, FixedNoise with shared inputs and per-fantasy noise, KISS-GP after a grad-enabled prediction, "
+       "KISS-GP with fixed noise. Models above max_cholesky_size (Lanczos update) are outside the bound.",
+  technique="contract-based deductive verification: AST-extracted real function, structural deepcopy model, frame obligations on object identity, modular callee contracts (stubs), z3"),
 }
 REASON_NOT_BUILT = "contracts for this property are not built yet in this revision (see DESIGN.md section 9 build order); not claimed until its obligations are discharged by the checker"
 
